@@ -5,10 +5,12 @@
  *   gate N      N waiters wait for `open`; the opener sets it and broadcasts under the mutex
  *   turn N      N threads pass a turnstile in order, each broadcasting the change
  *   stray       a signal issued while nobody waits must not wake a later waiter
+ *   sem P C     counting semaphore: producers do lock; tokens++; unlock; SIGNAL AFTER UNLOCK; consumers wait for a token
+ *   bbb P C n   bounded buffer on ONE condition variable, every put/get does unlock; BROADCAST AFTER UNLOCK
  */
 #include "hcommon.h"
 
-enum { F_BB, F_GATE, F_TURN, F_STRAY };
+enum { F_BB, F_GATE, F_TURN, F_STRAY, F_SEM, F_BBB };
 typedef struct { int fam, a, b, n, W, K; } prog_t;
 #define MAXP 400
 static prog_t P[2][MAXP]; static int NP[2];
@@ -26,6 +28,8 @@ static void build(void) {
       if (tier) add(tier, F_GATE, 3, 0, 0, W, 2);
       add(tier, F_TURN, 2, 0, 0, W, k); add(tier, F_TURN, 3, 0, 0, W, tier ? 2 : 1);
       add(tier, F_STRAY, 0, 0, 0, W, k);
+      add(tier, F_SEM, 2, 2, 0, W, W == 1 ? k : 2); add(tier, F_SEM, 1, 1, 0, W, k); if (tier) add(tier, F_SEM, 3, 3, 0, W, 1);
+      add(tier, F_BBB, 1, 1, 2, W, k); add(tier, F_BBB, 2, 2, 2, W, tier ? 2 : 1); add(tier, F_BBB, 1, 2, 2, W, W == 1 ? k : 2);
     }
   }
 }
@@ -37,6 +41,8 @@ static void describe(int tier, int prog, char * b, size_t n) {
   case F_BB: snprintf(b, n, "bounded-buffer producers=%d consumers=%d items=%d", p->a, p->b, p->n); break;
   case F_GATE: snprintf(b, n, "gate waiters=%d (broadcast)", p->a); break;
   case F_TURN: snprintf(b, n, "turnstile threads=%d (broadcast)", p->a); break;
+  case F_SEM: snprintf(b, n, "semaphore producers=%d consumers=%d (signal after unlock)", p->a, p->b); break;
+  case F_BBB: snprintf(b, n, "bounded-buffer on one cond, producers=%d consumers=%d items=%d (broadcast after unlock)", p->a, p->b, p->n); break;
   default: snprintf(b, n, "stray signal before any waiter"); break;
   }
 }
@@ -71,6 +77,29 @@ static void * consumer(void * a) {
     consumed_sum += slot; consumed_n++; full = 0;
     myth_cond_signal(&c0);
     myth_mutex_unlock(&m);
+  }
+  return 0;
+}
+static volatile int tokens, taken;
+static void * sem_producer(void * a) { (void)a; myth_mutex_lock(&m); held_witness("sem producer"); tokens++; myth_mutex_unlock(&m); myth_cond_signal(&c0); return 0; }
+static void * sem_consumer(void * a) {
+  (void)a; myth_mutex_lock(&m);
+  while (tokens == 0) { myth_cond_wait(&c0, &m); held_witness("sem consumer after wait"); mv_cover(5); }
+  tokens--; taken++; myth_mutex_unlock(&m); return 0;
+}
+static void * bbb_producer(void * a) {
+  int cnt = (int)(long)a;
+  for (int i = 0; i < cnt; i++) {
+    myth_mutex_lock(&m); while (full) { myth_cond_wait(&c0, &m); held_witness("bbb producer after wait"); mv_cover(6); }
+    slot = ++produced; full = 1; myth_mutex_unlock(&m); myth_cond_broadcast(&c0);
+  }
+  return 0;
+}
+static void * bbb_consumer(void * a) {
+  int cnt = (int)(long)a;
+  for (int i = 0; i < cnt; i++) {
+    myth_mutex_lock(&m); while (!full) { myth_cond_wait(&c0, &m); held_witness("bbb consumer after wait"); mv_cover(6); }
+    consumed_sum += slot; consumed_n++; full = 0; myth_mutex_unlock(&m); myth_cond_broadcast(&c0);
   }
   return 0;
 }
@@ -136,6 +165,20 @@ static void run(int tier, int prog) {
     for (int i = 0; i < nt; i++) myth_join(th[i], 0);
     for (int i = 0; i < cur->a; i++) MV_CHECK(passed[i] == i + 1, "turnstile order broken at %d", i);
     break;
+  case F_SEM:
+    for (int i = 0; i < cur->b; i++) th[nt++] = myth_create(sem_consumer, 0);
+    for (int i = 0; i < cur->a; i++) th[nt++] = myth_create(sem_producer, 0);
+    for (int i = 0; i < nt; i++) myth_join(th[i], 0);
+    MV_CHECK(taken == cur->b && tokens == cur->a - cur->b, "semaphore: %d tokens taken, %d left (produced %d, consumers %d)", taken, tokens, cur->a, cur->b);
+    break;
+  case F_BBB: {
+    int per_p = cur->n / cur->a, per_c = cur->n / cur->b;
+    for (int i = 0; i < cur->b; i++) th[nt++] = myth_create(bbb_consumer, (void *)(long)per_c);
+    for (int i = 0; i < cur->a; i++) th[nt++] = myth_create(bbb_producer, (void *)(long)per_p);
+    for (int i = 0; i < nt; i++) myth_join(th[i], 0);
+    int n = per_p * cur->a;
+    MV_CHECK(consumed_n == n && consumed_sum == n * (n + 1) / 2, "items lost or duplicated: consumed %d items summing to %d, produced %d", consumed_n, consumed_sum, n);
+    break; }
   default:
     myth_cond_signal(&c0);      /* nobody waits */
     myth_cond_broadcast(&c0);
@@ -150,6 +193,6 @@ static void run(int tier, int prog) {
   mv_obs("fam=%d consumed=%d sum=%d turn=%d", cur->fam, consumed_n, consumed_sum, turn);
   mv_finish();
 }
-static const char * const cover_names[] = { "producer_waited", "consumer_waited", "gate_waited", "turn_waited", "stray_waiter_blocked", 0 };
-static uint64_t cover_required(int tier) { (void)tier; return 0x1f; }
+static const char * const cover_names[] = { "producer_waited", "consumer_waited", "gate_waited", "turn_waited", "stray_waiter_blocked", "sem_consumer_waited", "bbb_waited", 0 };
+static uint64_t cover_required(int tier) { (void)tier; return 0x7f; }
 mc_harness_t mc_harness = { "C05", "cond", nprogs, describe, config, run, cover_names, cover_required };
